@@ -2,6 +2,7 @@ import MosnVerif.Lemmas.BoltSpec
 import MosnVerif.Lemmas.Dubbo
 import MosnVerif.Lemmas.DubboThrift
 import MosnVerif.Lemmas.Tars
+import MosnVerif.Lemmas.HttpUri
 /-!
 # C01 — forwarding fidelity (property theorems only)
 
@@ -321,5 +322,39 @@ example : (Tars.encodeReq exTarsReq 70000).take 14 = [0, 0, 0, 39, 0x10, 1, 0x2c
 -- negation witness: two context entries written in the other order are not what `splice` demands
 example : EnvelopeRef.Tars.splice (Tars.envelope (Tars.wReq { exTarsReq with context := [([1], [2]), ([3], [4])] })) true 5
     ≠ some (Tars.encodeReq { exTarsReq with context := [([3], [4]), ([1], [2])] } 5) := by decide
+
+/-! ## HTTP/1: request-URI pass-through (`injectCtxVarFromProtocolHeaders` → `buildUrlFromCtxVar`) -/
+
+/-- **uri_passthrough**: for every path normaliser, unescaper and escaper (fasthttp / net/url are black boxes), every
+original path and every query string: when nothing replaced the path variable, the upstream request target is the original
+path byte for byte (`/` when it is empty) followed by `?query` when the query is not empty. -/
+theorem uri_passthrough (O : HttpUri.Oracles) (pathOriginal query : String) :
+    HttpUri.buildUrl O (HttpUri.inject O pathOriginal query) =
+      (if pathOriginal = "" then "/" else pathOriginal) ++ (if query = "" then "" else "?" ++ query) :=
+  HttpUri.passthrough O pathOriginal query
+
+/-- **uri_passthrough_identical_partial**: the forwarded target equals the received one (path, `?`, query) provided
+the received target has a `?` exactly when its query is non-empty.  Full statement (also "/a?" with an empty query) is
+false of the code: the `?` is dropped — KNOWN_FINDINGS, witness below. -/
+theorem uri_passthrough_identical_partial (O : HttpUri.Oracles) (pathOriginal query : String) (hadQ : Bool)
+    (hp : pathOriginal ≠ "") (hq : hadQ = true ↔ query ≠ "") :
+    HttpUri.buildUrl O (HttpUri.inject O pathOriginal query) = HttpUri.expected pathOriginal hadQ query :=
+  HttpUri.passthrough_identical O pathOriginal query hadQ hp hq
+
+/-- a replaced path variable that is not an alias of the original path is escaped with `RequestURI` (`*` stays `*`) -/
+theorem uri_rewritten (O : HttpUri.Oracles) (v : HttpUri.Vars)
+    (hne : ∀ u e, Gen.C01HttpUri.passOriginal O.fhPath v.path v.pathOriginal u e = false) :
+    HttpUri.buildUrl O v =
+      (let r := if v.path = "*" then "*" else O.requestURI v.path
+       (if r = "" then "/" else r) ++ (if v.query = "" then "" else "?" ++ v.query)) :=
+  HttpUri.rewritten O v hne
+
+def exOracles : HttpUri.Oracles :=
+  { unescape := fun _ => none, fhPath := fun p => if p = "/a//%2Fb" then "/a/b" else p, requestURI := fun p => p ++ "!" }
+-- normalised path differs from the original one, the unescaper fails: the original path is still what is forwarded
+example : HttpUri.buildUrl exOracles (HttpUri.inject exOracles "/a//%2Fb" "x=1&y=%20") = "/a//%2Fb?x=1&y=%20" := by decide
+example : HttpUri.buildUrl exOracles (HttpUri.rewrite (HttpUri.inject exOracles "/a//%2Fb" "") "/new") = "/new!" := by decide
+-- negation witness for the unrestricted statement: "/a?" is forwarded as "/a"
+example : HttpUri.buildUrl exOracles (HttpUri.inject exOracles "/a" "") ≠ HttpUri.expected "/a" true "" := by decide
 
 end MosnVerif.Props.C01
